@@ -21,7 +21,7 @@ NSCHED = {'quick': 320, 'thorough': 3840}
 KEYS = ['a', 'b', 'k1', 7, 'p-q']
 VALS = [1, 'v', (2, 3), None, 2.5]
 SCEN = ['ww', 'ww', 'wr-other', 'wr-other', 'wr-list', 'wr-list', 'wr-list', 'over-r', 'over-list', 'del-r', 'del-list', 'www', 'f-wr', 'f-wo', 'f-wo', 'f-wr',
-        'q-ww', 'q-over-r', 'q-wr-list', 'q-upd-r', 'q-hold', 'wr-list-fine', 'wr-list-fine', 'over-len', 'f-upd-list']
+        'q-ww', 'q-over-r', 'q-wr-list', 'q-upd-r', 'q-hold', 'wr-list-fine', 'wr-list-fine', 'over-len', 'f-upd-list', 'q-clear-r']
 
 
 MONITOR_ONLY = ('f-upd-list',)         # scenarios the schedule model does not replay (multi-entry update of a file archive against bulk views)
@@ -64,6 +64,9 @@ def gen(tier, idx):
     elif sc == 'q-over-r': k = present[0]; procs = [('writer', ['setitem', k, nv(dict(prior)[k])]), ('reader', [r.choice(['getitem', 'contains', 'get', 'asdict']), k])]
     elif sc == 'q-wr-list': procs = [('writer', ['setitem', absent[0], nv()]), ('reader', [r.choice(['keys', 'asdict', 'items', 'len'])])]
     elif sc == 'q-upd-r': k = present[0]; procs = [('writer', ['update', [(k, nv(dict(prior)[k])), (absent[0], nv())]]), ('reader', [r.choice(['getitem', 'get', 'asdict']), k])]
+    elif sc == 'q-clear-r':
+        # clear() of a table while another process reads it: the reader never fails (a key that is gone is a KeyError, like in a dict)
+        procs = [('writer', ['clear']), ('reader', [[r.choice(['getitem', 'contains', 'get']), present[0]], ['len'], ['keys'], ['asdict']][(idx // len(SCEN)) % 4])]
     elif sc == 'q-hold':
         # the key has a history of assignments (several rows); a reader tests membership and then idles with its handle open
         k = present[0]; prior = prior + [(k, nv(dict(prior)[k]))]
@@ -75,7 +78,7 @@ def gen(tier, idx):
     if sc == 'q-hold': policy = 'hold'
     # (the reader takes k steps, the writer does ALL its work, the reader finishes: the whole update lands between two of the reader's reads)
     if sc == 'f-upd-list': policy = 'rpos:%d' % (1 + (idx // (3 * len(SCEN))) % 4)
-    if sc in ('f-wr', 'wr-other', 'over-r', 'del-r', 'q-over-r', 'q-upd-r', 'over-len'):
+    if sc in ('f-wr', 'wr-other', 'over-r', 'del-r', 'q-over-r', 'q-upd-r', 'over-len', 'q-clear-r'):
         # the reader takes one step: put it at every position of the writer's run in turn (exhaustive for these scenarios)
         policy = 'pos:%d' % ((idx // len(SCEN)) % 16)
     # every 8th dir schedule gates the readers at system-call level (scandir / stat / lstat / open) instead of helper level:
@@ -260,6 +263,7 @@ def monitor(tr):
         if role != 'writer': continue
         if op[0] == 'setitem': new[kcanon(op[1])] = cvj(op[2]); stored[kcanon(op[1])].add(cvj(op[2])); touched.add(kcanon(op[1]))
         elif op[0] in ('delitem', 'pop'): new.pop(kcanon(op[1]), None); touched.add(kcanon(op[1])); removed.add(kcanon(op[1]))
+        elif op[0] == 'clear': touched |= set(new); removed |= set(new); new = {}
         elif op[0] == 'update':
             for a_, b_ in op[1]: new[kcanon(a_)] = cvj(b_); stored[kcanon(a_)].add(cvj(b_)); touched.add(kcanon(a_))
     viol = []
